@@ -305,6 +305,10 @@ type LinkCfg struct {
 	Framed  bool          // run the real length-prefix framer over a simulated byte stream
 	Drop    float64
 	Dup     float64
+	// AdJitter delays every service-advertisement message by an extra hash-determined time in [0,AdJitter) and
+	// exempts it from FIFO order: advertisements and withdrawals overtake each other (and everything else) while
+	// the routing traffic that keeps the session alive stays in order.
+	AdJitter time.Duration
 }
 
 // Link is a bidirectional connection between two ends.  Each (re)connection is
@@ -666,6 +670,17 @@ func (s *Session) flush() {
 		}
 		if s.l.hold(s, it.data, rec) {
 			s.w.Count("fate_held", 1)
+			continue
+		}
+		if s.l.Cfg.AdJitter > 0 && len(it.data) > 0 && it.data[0] == MsgAd {
+			extra := time.Duration(H(s.w.Seed, "adjit", s.l.Name, s.gen, s.side, n) % uint64(s.l.Cfg.AdJitter))
+			at := it.at + delay + extra
+			now := s.w.Now()
+			if at <= now {
+				at = now + time.Nanosecond
+			}
+			peer, data := s.peer, it.data
+			time.AfterFunc(at-now, func() { peer.push(data, false, rec) })
 			continue
 		}
 		s.scheduleFrom(it.at, it.data, delay, rec)
